@@ -74,8 +74,9 @@ def _parse(out: str, res: TLCResult, init_names=("Init",)):
         mi = re.search(r"Error: Action property (\S+) is violated", out)
         if mi:
             kind, name = "action_property", mi.group(1)
-        elif "Error: Temporal properties were violated" in out:
-            kind, name = "temporal", "temporal"
+        elif "Error: Temporal properties were violated" in out or re.search(r"Error: Temporal property (\S+) was violated", out):
+            mt = re.search(r"Error: Temporal property (\S+) was violated", out)
+            kind, name = "temporal", (mt.group(1) if mt else "temporal")
         elif re.search(r"Error: Deadlock reached", out):
             kind, name = "deadlock", "deadlock"
         elif re.search(r"Error: The (first|second) argument of Assert evaluated to FALSE", out) or \
@@ -88,6 +89,8 @@ def _parse(out: str, res: TLCResult, init_names=("Init",)):
     if kind:
         res.ok = False
         ti = out.find("Error: The behavior up to this point is:")
+        if ti < 0:
+            ti = out.find("Error: The following behavior constitutes a counter-example:")
         trace = ""
         mi0 = re.search(r"is violated by the initial state:\s*\n(.*?)(?:\n\s*\n|\Z)", out, re.S)
         if ti < 0 and mi0:
